@@ -18,6 +18,7 @@ import traceback
 import zlib
 
 _installed = False
+_orig = {}
 _st = {}
 MAX_BYTES = 400000          # a compilation with more constant bytes than this is left to the other stages (request size)
 
@@ -188,6 +189,7 @@ def install():
 
     # ---- serialise_npu_subgraph_into_tensors -----------------------------------------------------------------------
     orig_ser = ns.serialise_npu_subgraph_into_tensors
+    _orig.update(ser=orig_ser, copy_c=ns.copy_compressed_values_to_memory_tensor, copy_i=ns.copy_ifm_values_to_memory_tensor)
 
     @note
     def before_ser(sg, arch, scratch_tens, scratch_fast_tens, flash_tens):
@@ -270,6 +272,185 @@ def install():
         return orig_driver(*a, **kw)
 
     compiler_driver.compiler_driver = wrap_driver
+
+
+
+# ------------------------------------------------------------------------------------------------
+# function level: generated tensors through the REAL copy functions and the real serialiser (stub objects, real NumPy)
+class _O:
+    def __init__(self, **kw):
+        self.__dict__.update(kw)
+
+
+def _exc_kind(e):
+    m = str(e)
+    if isinstance(e, ValueError):
+        return "err:broadcast"
+    if isinstance(e, AttributeError):
+        if "'flatten'" in m:
+            return "err:novalues"
+        if "'address'" in m:
+            return "err:nolut"
+        return "err:notensor"
+    if isinstance(e, TypeError):
+        return "err:novalues" if "item assignment" in m else "err:noaddress"
+    raise e
+
+
+def _stub_comp(rng, room):
+    n = rng.choice([0, 1, 1, 15, 16, 16, 16, 17, 32, 48, 64, 80])
+    st = max(16, (n + 15) // 16 * 16) if rng.random() < 0.8 else rng.choice([n, n + 1, 16, 32])
+    if n == 0:
+        st = rng.choice([16, 1])
+    addr = None if rng.random() < 0.04 else rng.choice([0, 16, 32, max(0, room - st), max(0, room - st + 8), room, room + 16, rng.randrange(0, room + 1)])
+    buf = bytearray(rng.randrange(256) for _ in range(n))
+    return _O(address=addr, buffer=buf, storage_size=(lambda st=st: st)), f"!{_opt(addr)}!{st}!{bytes(buf).hex()}"
+
+
+def _stub_fm(rng, room, arena_ok=True):
+    import numpy as np
+    from ethosu.vela.data_type import DataType
+    from ethosu.vela.tensor import MemType
+
+    dt, npdt = rng.choice([(DataType.int8, np.int8), (DataType.uint8, np.uint8), (DataType.int16, np.int16), (DataType.int32, np.int32),
+                           (DataType.int64, np.int64), (DataType.uint16, np.uint16), (DataType.int16, np.int32), (DataType.int8, np.int16),
+                           (DataType.int32, np.int16), (DataType.uint8, np.int8)])
+    k = rng.choice([0, 1, 1, 2, 3, 5, 8, 16, 33])
+    info = np.iinfo(npdt)
+    vals = [rng.choice([info.min, info.max, 0, -1 if info.min < 0 else 1, rng.randrange(info.min, info.max + 1)]) for _ in range(k)]
+    shape = (k,) if k % 2 or k == 0 else (2, k // 2)
+    values = None if rng.random() < 0.05 else np.array(vals, dtype=npdt).reshape(shape)
+    mt = rng.choice([MemType.Permanent_NPU, MemType.Permanent_NPU, MemType.Permanent_CPU, MemType.Unknown] +
+                    ([MemType.Scratch, MemType.Scratch_fast] if arena_ok else []))
+    nb = k * (np.dtype(npdt).itemsize if dt.size_in_bytes() > 1 else 1)
+    addr = None if rng.random() < 0.04 else rng.choice([0, 16, max(0, room - nb), max(0, room - nb + 1), room, rng.randrange(0, room + 1)])
+    t = _O(address=addr, values=values, dtype=dt, mem_type=mt)
+    vs = "-" if values is None else "v" + ".".join(map(str, vals))
+    return t, f"!{_opt(addr)}!{int(mt)}!{dt.size_in_bytes()}!{np.dtype(npdt).itemsize if values is not None else 0}!{vs}"
+
+
+def stub(rng, n):
+    """n generated copies through copy_compressed_values_to_memory_tensor / copy_ifm_values_to_memory_tensor and n // 4 generated
+    subgraph descriptions through serialise_npu_subgraph_into_tensors (first and later calls, faulty hand-overs)"""
+    import numpy as np
+    import pipeline
+
+    pipeline.load_vela()
+    from ethosu.vela import npu_serialisation as ns
+    from ethosu.vela.architecture_features import Accelerator, MemPort, create_default_arch
+    from ethosu.vela.nn_graph import PassPlacement
+
+    copy_c = _orig.get("copy_c", ns.copy_compressed_values_to_memory_tensor)
+    copy_i = _orig.get("copy_i", ns.copy_ifm_values_to_memory_tensor)
+    ser = _orig.get("ser", ns.serialise_npu_subgraph_into_tensors)
+    recs = []
+    for i in range(n):
+        room = rng.choice([0, 16, 48, 64, 128])
+        mem = np.array([rng.randrange(256) if rng.random() < 0.5 else 0 for _ in range(room)], dtype=np.uint8)
+        mt = _O(values=mem.copy())
+        if rng.random() < 0.5:
+            t, txt = _stub_comp(rng, room)
+            line, fn = f"sercopy mem={mem.tobytes().hex()} it=W{txt}", copy_c
+        else:
+            t, txt = _stub_fm(rng, room, arena_ok=False)
+            line, fn = f"sercopy mem={mem.tobytes().hex()} it=I{txt}", copy_i
+        try:
+            fn(mt, t)
+            real = f"ok {len(mt.values)}:{_adler(_u8(mt.values))}"
+        except Exception as e:  # noqa: B902
+            real = _exc_kind(e)
+        recs.append({"kind": "copy", "line": line, "real": real})
+    archs = {}
+    port = {MemPort.Axi0: "0", MemPort.Axi1: "1"}
+    accs = list(Accelerator)
+    for i in range(n // 4):
+        acc = rng.choice(accs)
+        arch = archs.setdefault(acc, create_default_arch(acc))
+        room = rng.choice([0, 64, 256, 512])
+        ops, texts = [], []
+        cost = {}
+        pos = 0
+        for _ in range(rng.choice([0, 1, 2, 3])):
+            items = []
+            w = sc_ = ifm = ifm2 = None
+            lut = False
+            lt = None
+            faulty = rng.random() < 0.15
+            if rng.random() < 0.7:
+                w, txt = _stub_comp(rng, room)
+                if not faulty:
+                    w.address, st = pos, w.storage_size()
+                    nb = st if len(w.buffer) != 1 else st
+                    w.buffer = bytearray(rng.randrange(256) for _ in range(st))
+                    pos += st
+                    txt = f"!{pos - st}!{st}!{bytes(w.buffer).hex()}"
+                items.append("W" + txt)
+            if rng.random() < 0.5:
+                sc_, txt = _stub_comp(rng, room)
+                items.append("S" + txt)
+            if rng.random() < 0.6:
+                ifm, txt = _stub_fm(rng, room)
+                items.append("I" + txt)
+            if rng.random() < 0.3:
+                ifm2, txt = _stub_fm(rng, room)
+                items.append("J" + txt)
+            if rng.random() < 0.3:
+                lut = True
+                if rng.random() < 0.1:
+                    items.append("L-")
+                else:
+                    lt, txt = _stub_fm(rng, room)
+                    items.append("L" + txt)
+            so = _O(parent_op=_O(get_ifm_ifm2_weights_biases_ofm=(lambda a=ifm, b=ifm2: (a, b, None, None, None)), activation_lut=lut),
+                    parent_ps=_O(lut_tensor=lt))
+            cost[so] = _O(npu_weights_tensor=w, npu_scales_tensor=sc_)
+            ops.append(so)
+            texts.append("/".join(items))
+        words = [rng.randrange(1 << 32) for _ in range(rng.choice([0, 1, 4, 7, 9]))]
+        npu = rng.random() < 0.9
+        fa, sa = arch.permanent_storage_mem_area, arch.feature_map_storage_mem_area
+        mu = {}
+        if rng.random() < 0.9:
+            mu[fa] = max(room, pos) if rng.random() < 0.85 else rng.choice([0, 16, room])
+        if rng.random() < 0.3:
+            mu[sa] = mu.get(sa, 0) + rng.choice([0, 1024])
+        sg = _O(placement=PassPlacement.Npu if npu else PassPlacement.Cpu, memory_used=mu, register_command_stream=words, name=f"stub{i}",
+                sched_ops=ops, schedule=_O(cost_map=cost))
+        mode = rng.choice(["first", "first", "later", "later", "faulty"])
+        s = q = f = None
+        intxt = "-,-,-,-"
+        if mode != "first":
+            fsz = rng.choice([0, 64, 256, 512])
+            s = ns.make_memory_tensor("s", sa, 3, rng.choice([0, 4096]), False, arch)
+            q = ns.make_memory_tensor("q", arch.fast_storage_mem_area, 4, rng.choice([0, 128]), False, arch)
+            f = ns.make_memory_tensor("f", fa, 2, fsz, True, arch)
+            f.values = np.array([rng.randrange(256) for _ in range(fsz)], dtype=np.uint8)
+            if mode == "faulty":
+                which = rng.choice(["s", "q", "f", "sq"])
+                s = None if "s" in which else s
+                q = None if "q" in which else q
+                f = None if "f" in which else f
+            hx = "-" if f is None else (f.values.tobytes().hex() or "e")
+            intxt = (f"{'-' if s is None else s.shape[0]},{'-' if q is None else q.shape[0]},{'-' if f is None else f.shape[0]},{hx}")
+        sgtxt = f"{int(npu)}@{','.join(f'{int(a)}:{n_}' for a, n_ in mu.items())}@{'.'.join(map(str, words))}@{';'.join(texts)}"
+        if not npu:
+            sgtxt = f"0@{','.join(f'{int(a)}:{n_}' for a, n_ in mu.items())}@@"
+        line = (f"serial1 acc={accs.index(acc)} ports={port[arch.const_mem_area]}{port[arch.arena_mem_area]}{port[arch.cache_mem_area]} "
+                f"axi={int(arch.axi0_port)},{int(arch.axi1_port)} in={intxt} sg={sgtxt}")
+        try:
+            rs, rq, rf = ser(sg, arch, s, q, f)
+            sz = lambda t: "-" if t is None else str(int(t.shape[0]))      # noqa: E731
+            fl = "-" if rf is None else f"{int(rf.shape[0])}:{len(rf.values)}:{_adler(_u8(rf.values))}"
+            cm = "-"
+            if npu:
+                ct = sg.command_stream_tensor
+                cm = f"{int(ct.shape[0])}:{_adler(_u8(ct.values))}"
+            real = f"ok s={sz(rs)} q={sz(rq)} f={fl} cmd={cm}"
+        except Exception as e:  # noqa: B902
+            real = _exc_kind(e)
+        recs.append({"kind": "serial1", "line": line, "real": real})
+    return [{"profile": "serial_stub", "idx": 0, "seed": 0, "opts": None, "desc": "generated tensors through the real copy functions / serialiser",
+             "serial": {"errors": [], "skipped": None, "model": recs, "spec": [], "counts": {}}}]
 
 
 # ------------------------------------------------------------------------------------------------
@@ -511,7 +692,10 @@ TITLES = {"flash": "the constants tensor of the output file does not hold the so
           "span_fast": "the fast-scratch tensor does not start at 0 / span every fast-scratch tensor",
           "order": "region n of the command stream is not operand n + 1 of the Ethos-U operator",
           "report": "a reported memory figure is below the extent published in the output file"}
-NAMES = {"serial": "Model/Serialise.serialiseAll + finalSizes + rewriteInputs = npu_serialisation.serialise_npu_subgraph_into_tensors / "
+NAMES = {"copy": "Model/Serialise.copyCompressed / copyIfm = npu_serialisation.copy_compressed_values_to_memory_tensor / "
+                 "copy_ifm_values_to_memory_tensor (generated tensors, real NumPy)",
+         "serial1": "Model/Serialise.serialise = npu_serialisation.serialise_npu_subgraph_into_tensors (generated subgraph descriptions)",
+         "serial": "Model/Serialise.serialiseAll + finalSizes + rewriteInputs = npu_serialisation.serialise_npu_subgraph_into_tensors / "
                    "rewrite_npu_call_ops and the sizing in compiler_driver",
          "reported": "Model/Reported.books / csvMemory / consoleMemory / totalEncoded = tensor_allocation.allocate_tensors bookkeeping, "
                      "stats_writer.write_summary_metrics_csv / print_performance_metrics, npu_performance weight totals"}
@@ -615,6 +799,8 @@ def stage(ck, outs, prefix="serial_"):
             if not r.get("kept", True):
                 disagreements.append((r, o, "the original operands of a call operator are not kept behind the memory tensors"))
                 continue
+        elif r["kind"] in ("copy", "serial1"):
+            ck.count(prefix + "stub_" + r["kind"] + "_" + ("ok" if r["real"].startswith("ok") else r["real"]))
         elif not r.get("nng_matches_csv", True):
             disagreements.append((r, o, "nng.memory_used / total_npu_encoded_weights differ from the CSV row"))
             continue
